@@ -1087,10 +1087,6 @@ func (m *MapPollard) Verify(delHashes []Hash, proof Proof, remember bool) error 
 //
 // This function is different from Verify() in that it's not safe for concurrent access.
 func (m *MapPollard) verify(delHashes []Hash, proof Proof, remember bool) error {
-	if TreeRows(m.NumLeaves) != m.TotalRows {
-		proof.Targets = translatePositions(proof.Targets, m.TotalRows, TreeRows(m.NumLeaves))
-	}
-
 	s := m.getStump()
 	_, err := Verify(s, delHashes, proof)
 	if err != nil {
